@@ -257,6 +257,10 @@ theorem C07_nothing_else_runs (tt : TypeTable) (root : Option Val) (hwf : WFShap
 theorem C07_dispatch_is_stateless :
     Skeleton.current.stateGlobals = [] ∧ Skeleton.current.ucResultsUntouched = true ∧ Skeleton.current.ucNoWaiting = true := by decide
 
+/-- The resolver runs on the frame of ITS request: the request struct is declared inside the read loop's body, so a later frame — or the part of an undecodable frame that was filled in before the codec gave up — cannot change the function name or the arguments an earlier, still pending request is resolved with (checked against the regenerated skeleton). -/
+theorem C07_each_request_is_resolved_from_its_own_frame :
+    Skeleton.current.reqFrameFreshPerIteration = true ∧ Skeleton.current.lkResolvesPerRequest = true := by decide
+
 end Panrpc.Lk
 
 #print axioms Panrpc.Lk.C07_sound_partial
@@ -271,3 +275,4 @@ end Panrpc.Lk
 #print axioms Panrpc.Lk.C07_sound
 #print axioms Panrpc.Lk.C07_nothing_else_runs
 #print axioms Panrpc.Lk.C07_dispatch_is_stateless
+#print axioms Panrpc.Lk.C07_each_request_is_resolved_from_its_own_frame
